@@ -344,8 +344,13 @@ func runRouting(c *Ctx, prop string) {
 		for i, p := range perm {
 			sameAccept = sameAccept && (outs2[i] == "ok") == (outs[p] == "ok")
 		}
+		ambiguous := ambiguousSameMethod(rules)
 		if prop == "C02" && allOK && trie.Fingerprint() != trie2.Fingerprint() {
-			c.SpecFail("order", line, trie2.Fingerprint(), trie.Fingerprint(), "C02/order/trie-differs", "the routing table depends on registration order")
+			key := "C02/order/trie-differs"
+			if len(ambiguous) > 0 {
+				key = "C02/order/same-method-same-pattern-other-binding"
+			}
+			c.SpecFail("order", line, trie2.Fingerprint(), trie.Fingerprint(), key, "the routing table depends on registration order")
 		}
 		if prop == "C02" && !sameAccept {
 			// acceptance may legitimately depend on order only through duplicate-rule conflicts
@@ -421,7 +426,11 @@ func runRouting(c *Ctx, prop string) {
 				if allOK {
 					res2 := implRoute(trie2, verb, path)
 					if res2.class != res.class || res2.method != res.method || fmt.Sprint(res2.caps) != fmt.Sprint(res.caps) {
-						c.SpecFail("route", in, res2.line, res.line, "C02/order/route-differs", "the outcome depends on registration order")
+						key := "C02/order/route-differs"
+						if (ambiguous[res.method] || res.class != "found") && (ambiguous[res2.method] || res2.class != "found") && (res.class == "found" || res2.class == "found") {
+							key = "C02/order/same-method-same-pattern-other-binding"
+						}
+						c.SpecFail("route", in, res2.line, res.line, key, "the outcome depends on registration order")
 					}
 				}
 				if tokenCount(path) <= 64 {
